@@ -20,7 +20,7 @@ import itertools
 
 import numpy as np
 
-from mc import ScopeUnit, FAILED
+from mc import ScopeUnit, HistoryUnit, FAILED
 from mc.linalg import operator_matrix, dense
 from mc.state import noise_free, reset_executors
 
@@ -54,8 +54,9 @@ def nu_map(kind, shape, lo=0.5):
 
 def ref_expose(img, P):
     """(lo, hi, regime) per pixel: admissible DN band and the regime of the reference value."""
-    dark = P['dc'] * T_EXP * (P['dcnu'] if P['dcnu'] is not None else 1.0)
-    e = img * T_EXP + dark
+    t = P.get('t', T_EXP)
+    dark = P['dc'] * t * (P['dcnu'] if P['dcnu'] is not None else 1.0)
+    e = img * t + dark
     if P.get('int_counts'):
         e = np.rint(e)          # the typed seam hands back integer counts, like numpy's poisson
     pr = P['prnu'] if P['prnu'] is not None else 1.0
@@ -299,6 +300,157 @@ def run_expose_layout(case, seed, R):
     R.nontrivial(layout != 'C')
     R.outcome(layout)
 
+
+
+# ---------------------------------------------------------------------------------------------
+# ONE Detector object over a history of exposures and re-configurations
+
+HIST_SHAPE = (4, 6)
+HIST_ATTRS = {      # every public attribute expose() reads -> its value alphabet
+    'conversion_gain': [2.0, 8.0, 0.5],
+    'bits': [12, 8, 16],
+    'bias': [10, 0],
+    'fwc': [50000.0, 1000.0],
+    'exposure_time': [2.0, 0.25],
+    'dark_current': [0.0, 2.0],
+    'read_noise': [3.0, 0.0],
+    'prnu': [None, 'ramp'],
+    'dcnu': [None, 'ramp'],
+    'lut': [None, 'lut'],
+}
+HIST_LUT = (np.arange(2 ** 16) * 3 // 4).astype(np.uint16)      # monotone, non-trivial response table over every 16-bit code
+HIST_RAMP = np.concatenate([[0.0, 0.4, 1.0], np.geomspace(3.0, 3e6, HIST_SHAPE[0] * HIST_SHAPE[1] - 3)]).reshape(HIST_SHAPE)   # e-/s, dark .. far above every ceiling
+
+
+def _hist_value(attr, idx):
+    v = HIST_ATTRS[attr][idx]
+    if v == 'ramp':
+        return nu_map('ramp', HIST_SHAPE)
+    if v == 'lut':
+        return HIST_LUT.copy()
+    return v
+
+
+class DetState:
+    """The real Detector plus the harness' own record of what its attributes currently are (never the same array objects)."""
+
+    def __init__(self, init):
+        self.idx = {a: int(init['start'].get(a, 0)) for a in HIST_ATTRS}
+        self.cur = {a: _hist_value(a, i) for a, i in self.idx.items()}
+        self.frames = init['frames']
+        self.trace = []
+        self.last = None
+        self.det = self.build()
+
+    def build(self):
+        c = {a: (v.copy() if isinstance(v, np.ndarray) else v) for a, v in self.cur.items()}
+        return detector.Detector(dark_current=c['dark_current'], read_noise=c['read_noise'], bias=c['bias'], fwc=c['fwc'], conversion_gain=c['conversion_gain'],
+                                 bits=c['bits'], exposure_time=c['exposure_time'], prnu=c['prnu'], dcnu=c['dcnu'], lut=c['lut'])
+
+    def params(self):
+        c = self.cur
+        return dict(bits=c['bits'], gain=c['conversion_gain'], bias=c['bias'], fwc=c['fwc'], dcnu=c['dcnu'], prnu=c['prnu'], dc=c['dark_current'], t=c['exposure_time'])
+
+    def images(self):
+        c = self.cur
+        sigs = signal_alphabet(c['bits'], c['conversion_gain'], c['bias'], c['fwc'])
+        n = HIST_SHAPE[0] * HIST_SHAPE[1]
+        mixed = np.array([sigs[(5 * j + 1) % len(sigs)] for j in range(n)]).reshape(HIST_SHAPE) / c['exposure_time']
+        return [('fixed log ramp', HIST_RAMP.copy()), ('ceiling alphabet of the current settings', mixed)]
+
+
+def hd_fresh(init, seed):
+    return DetState(init)
+
+
+def hd_events(init, hist, st):
+    evs = [['expose']]
+    for a, vals in HIST_ATTRS.items():
+        evs += [['set', a, i] for i in range(len(vals)) if i != st.idx[a]]
+    evs += [['scale-in-place', a] for a in ('prnu', 'dcnu') if isinstance(st.cur[a], np.ndarray)]
+    return evs
+
+
+def _hd_expose(st, det, R, hygiene):
+    outs = []
+    with noise_free():
+        for label, im in st.images():
+            outs.append((label, im, R.call(det.expose, im, st.frames, sig='history:expose:exception', hygiene=hygiene)))
+    return outs
+
+
+def hd_apply(st, ev, R):
+    st.trace = st.trace + [ev]
+    st.last = None
+    if ev[0] == 'expose':
+        st.last = _hd_expose(st, st.det, R, True)
+    elif ev[0] == 'set':
+        _, a, i = ev
+        st.idx[a] = i
+        st.cur[a] = _hist_value(a, i)
+        setattr(st.det, a, _hist_value(a, i))              # public attribute reassigned on the live object
+    else:
+        a = ev[1]
+        st.idx[a] = -1
+        st.cur[a] = st.cur[a] * 0.5
+        arr = getattr(st.det, a)
+        arr *= 0.5                                          # the map the detector holds, edited in place by its owner
+    return st
+
+
+def _hd_judge(st, outs, fresh_outs, cell, hist, R):
+    P = st.params()
+    cap = 2 ** P['bits'] - 1
+    shape = HIST_SHAPE
+    want_shape = shape if st.frames == 1 else (st.frames, *shape)
+    lut = st.cur['lut']
+    want_dtype = np.dtype(np.uint8 if P['bits'] <= 8 else np.uint16 if P['bits'] <= 16 else np.uint32) if lut is None else lut.dtype
+    where = f'after history {hist}'
+    for (label, im, out), fr in zip(outs, fresh_outs):
+        if out is FAILED:
+            continue
+        try:
+            out = np.asarray(out)
+            ok = out.shape == want_shape and out.dtype == want_dtype
+        except Exception:   # noqa
+            ok = False
+        if not R.expect(ok, f'history:expose:{cell}:shape-dtype', f'{label}: {getattr(out, "shape", None)} {getattr(out, "dtype", None)} != documented {want_shape} {want_dtype} {where}'):
+            continue
+        dn = out.astype(np.int64).reshape((st.frames, *shape))
+        lo, hi, regime = ref_expose(im, P)
+        if lut is not None:
+            lo, hi = lut.astype(np.int64)[lo], lut.astype(np.int64)[hi]
+        R.expect(dn.min() >= 0 and dn.max() <= cap, f'history:expose:{cell}:range', f'{label}: DN outside [0, {cap}]: min {dn.min()} max {dn.max()} {where}')
+        bad = (dn < lo) | (dn > hi)
+        R.checks += 1
+        if bad.any():
+            i = tuple(int(v) for v in np.argwhere(bad)[0])
+            cfg = {a: (v if not isinstance(v, np.ndarray) else f'array{v.shape}') for a, v in st.cur.items()}
+            R.violation(f'history:expose:{cell}:value:{regime[i[1:]]}',
+                        f'{label}: DN {dn[i]} at frame/pixel {i}, noise-free law for the CURRENT attributes gives {lo[i[1:]]}..{hi[i[1:]]} ({int(bad.sum())} pixels wrong); current attributes {cfg}; {where}')
+        if fr is not FAILED:
+            R.expect_equal(out, fr, f'history:expose:{cell}:stale-object-state', f'{label}: the exposure of the re-configured detector differs from a fresh Detector built with the same current attributes; {where}')
+
+
+def hd_check(st, init, hist, R):
+    ev = hist[-1] if hist else ['initial']
+    cell = 'initial' if not hist else 'after-expose' if ev[0] == 'expose' else f'after-{ev[0]}-{ev[1]}'
+    fresh_det = st.build()
+    fresh_outs = [o for _, _, o in _hd_expose(st, fresh_det, R, False)]
+    if st.last is not None:
+        _hd_judge(st, st.last, fresh_outs, 'event', hist, R)
+    # probe exposure in EVERY state (the state object is discarded afterwards: longer histories are replayed without it)
+    _hd_judge(st, _hd_expose(st, st.det, R, False), fresh_outs, cell, hist, R)
+    for a in ('prnu', 'dcnu'):
+        if isinstance(st.cur[a], np.ndarray):
+            R.expect_equal(getattr(st.det, a), st.cur[a], f'history:expose:modified-{a}', f'expose changed the {a} map held by the detector; after history {hist}')
+    R.nontrivial(True)
+    R.outcome(cell if ev[0] != 'set' else 'after-set')
+
+
+def hd_canon(st):
+    import json
+    return json.dumps(st.trace)
 
 
 # ---------------------------------------------------------------------------------------------
@@ -649,6 +801,268 @@ def run_bayer_int(case, seed, R):
 
 
 # ---------------------------------------------------------------------------------------------
+# argument forms of the colour planes: where the four arrays live in memory and in which order they are handed over
+
+PLANE_FORMS = ('fresh', 'decomposite:rggb', 'decomposite:bggr', 'site-slices', 'site-slices-of-window', 'stack', 'last-axis', 'same-object')
+PERMS = [list(p) for p in itertools.permutations(range(4))]
+
+
+def planes_in_form(form, h, w, dt, R):
+    """Four (h, w) planes with pairwise different content, living in memory as the form says; FAILED if prysm could not cut them."""
+    vals = ((np.arange(4 * h * w, dtype=np.int64).reshape(4, h, w) * 7 + 3) % 4093 + 1).astype(dt)
+    if np.dtype(dt).kind == 'f':
+        vals = vals + 0.25
+    if form == 'fresh':
+        return [vals[k].copy() for k in range(4)]
+    if form == 'stack':
+        st = vals.copy()
+        return [st[k] for k in range(4)]
+    if form == 'last-axis':
+        st = np.ascontiguousarray(np.moveaxis(vals, 0, 2))          # (h, w, 4), e.g. an image with four channels
+        return [st[..., k] for k in range(4)]
+    if form == 'same-object':
+        a = vals[0].copy()
+        return [a, a, a, a]
+    # strided views into ONE owning mosaic of shape (2h, 2w)
+    if form == 'site-slices-of-window':
+        big = np.full((2 * h + 3, 2 * w + 5), 9, dtype=dt)
+        mosaic = big[1:1 + 2 * h, 2:2 + 2 * w]
+    else:
+        mosaic = np.empty((2 * h, 2 * w), dtype=dt)
+    for k, (pi, pj) in enumerate(((0, 0), (0, 1), (1, 0), (1, 1))):
+        mosaic[pi::2, pj::2] = vals[k]
+    if form.startswith('decomposite:'):
+        out = R.call(bayer.decomposite_bayer, mosaic, form.split(':')[1], hygiene=False, sig='decomposite:forms:exception')     # the live views a user gets
+        if out is FAILED or len(out) != 4 or not all(isinstance(p, np.ndarray) and p.shape == (h, w) for p in out):
+            R.violation('decomposite:forms:shape', 'decomposite_bayer did not return four (m//2, n//2) arrays')
+            return FAILED
+        return list(out)
+    return [mosaic[pi::2, pj::2] for (pi, pj) in ((1, 1), (0, 0), (1, 0), (0, 1))]
+
+
+def run_bayer_forms(case, seed, R):
+    h, w, form, dt, cfa = case['h'], case['w'], case['form'], case['dtype'], case['cfa']
+    planes = planes_in_form(form, h, w, dt, R)
+    if planes is FAILED:
+        return
+    fclass = form.split(':')[0]
+    for perm in PERMS:
+        args = [planes[k] for k in perm]
+        snaps = [np.array(a) for a in args]
+        order = 'as-cut' if perm == [0, 1, 2, 3] else 'permuted'
+        # recomposite: (h, w) planes -> (2h, 2w) mosaic
+        want = np.empty((2 * h, 2 * w), dtype=dt)
+        for i in range(2 * h):
+            for j in range(2 * w):
+                want[i, j] = snaps[PLANES.index(colour(i, j, cfa))][i // 2, j // 2]
+        sig = f'recomposite:planes={fclass}:{order}:{cfa}'
+        out = R.call(bayer.recomposite_bayer, *args, cfa=cfa, sig=sig + ':exception')
+        if R.expect_equal(out, want, sig, f'recomposite_bayer of {form} planes handed over in order {perm}, cfa={cfa}: every sample must sit at its colour\'s native site of the REQUESTED layout'):
+            R.expect(np.asarray(out).dtype == np.dtype(dt), sig + ':dtype', f'dtype {np.asarray(out).dtype} != {dt} of the planes')
+            back = R.call(bayer.decomposite_bayer, out, cfa, hygiene=False)
+            if back is not FAILED and R.expect(len(back) == 4, f'decomposite(recomposite):planes={fclass}', 'four planes expected'):
+                for nm, b, sn in zip(PLANES, back, snaps):
+                    R.expect_equal(b, sn, f'decomposite(recomposite):planes={fclass}:{order}:{cfa}', f'plane {nm} of decomposite_bayer(recomposite_bayer({form} planes in order {perm}))')
+        for a, sn in zip(args, snaps):
+            R.expect_equal(a, sn, f'recomposite:planes={fclass}:input-modified', f'recomposite_bayer changed a plane ({form}, order {perm})')
+        buf = np.full((2 * h, 2 * w), 5, dtype=dt)
+        ret = R.call(bayer.recomposite_bayer, *args, cfa=cfa, output=buf, sig=sig + ':exception')
+        if ret is not FAILED:
+            R.expect(ret is buf, f'recomposite:{cfa}:output', 'output= array is not the returned array')
+            R.expect_equal(buf, want, sig + ':output', f'recomposite_bayer into output= of {form} planes in order {perm}')
+        # composite: the same four arrays taken as DENSE (m, n) = (h, w) planes (h, w even)
+        wantc = np.empty((h, w), dtype=dt)
+        for i in range(h):
+            for j in range(w):
+                wantc[i, j] = snaps[PLANES.index(colour(i, j, cfa))][i, j]
+        sigc = f'composite:planes={fclass}:{order}:{cfa}'
+        outc = R.call(bayer.composite_bayer, *args, cfa=cfa, sig=sigc + ':exception')
+        R.expect_equal(outc, wantc, sigc, f'composite_bayer of {form} planes handed over in order {perm}, cfa={cfa}')
+        for a, sn in zip(args, snaps):
+            R.expect_equal(a, sn, f'composite:planes={fclass}:input-modified', f'composite_bayer changed a plane ({form}, order {perm})')
+    R.nontrivial(True)
+    R.outcome(fclass)
+
+
+# ---------------------------------------------------------------------------------------------
+# frame-size threshold alphabet (NOT closed over the data dimension)
+
+def _malvar_stencils(cfa):
+    st = {}
+    for pi in (0, 1):
+        for pj in (0, 1):
+            for k, ch in enumerate('rgb'):
+                row = malvar_row(2 + pi, 2 + pj, ch, 8, 8, cfa).reshape(8, 8)
+                st[pi, pj, k] = {(int(i) - 2 - pi, int(j) - 2 - pj): float(row[i, j]) for i, j in zip(*np.nonzero(row))}
+    return st
+
+
+def ref_malvar_interior(x, cfa):
+    """(value, magnitude) of the published kernels at every site at least two samples from the border: arrays (m-4, n-4, 3)."""
+    m, n = x.shape
+    x = x.astype(float)
+    out = np.zeros((m - 4, n - 4, 3))
+    mag = np.zeros((m - 4, n - 4, 3))
+    for (pi, pj, k), wts in _malvar_stencils(cfa).items():
+        acc = 0.0
+        amag = 0.0
+        for (di, dj), v in wts.items():
+            blk = x[2 + pi + di:m - 2 + di:2, 2 + pj + dj:n - 2 + dj:2]
+            acc = acc + v * blk
+            amag = amag + abs(v) * np.abs(blk)
+        out[pi::2, pj::2, k] = acc
+        mag[pi::2, pj::2, k] = amag
+    return out, mag
+
+
+def _first_bad(bad):
+    return tuple(int(v) for v in np.argwhere(bad)[0])
+
+
+def run_large_bayer(case, seed, R):
+    m, n, cfa, dt = case['shape'][0], case['shape'][1], case['cfa'], case['dtype']
+    big = m * n > 2 ** 18          # the call-hygiene repetitions are left to the smaller frames
+    x = np.abs(dense((m, n), seed, 41, complex_=False)) * 900.0 + 100.0
+    if dt != 'float64':
+        x = np.floor(x * 4).astype(dt)          # raw counts
+    x0 = x.copy()
+    sites = ((0, 0), (0, 1), (1, 0), (1, 1))
+    chan = {'r': 0, 'g1': 1, 'g2': 1, 'b': 2}
+    cell = f'{cfa}:large'
+    rgb = R.call(bayer.demosaic_malvar, x, cfa, hygiene=not big, sig=f'malvar:{cell}:exception')
+    R.expect_equal(x, x0, f'malvar:{cfa}:mutates-input', f'demosaic_malvar modified its {(m, n)} input')
+    if rgb is not FAILED and R.expect(isinstance(rgb, np.ndarray) and rgb.shape == (m, n, 3), f'malvar:{cell}:shape', f'shape {getattr(rgb, "shape", None)} != {(m, n, 3)}'):
+        for pi, pj in sites:
+            ch = chan[colour(pi, pj, cfa)]
+            bad = rgb[pi::2, pj::2, ch] != x0[pi::2, pj::2]
+            R.checks += 1
+            if bad.any():
+                i, j = _first_bad(bad)
+                R.violation(f'malvar:native-site:{cell}', f'{(m, n)} {dt} mosaic: raw sample at {(2 * i + pi, 2 * j + pj)} ({colour(pi, pj, cfa)} site) reads {rgb[2 * i + pi, 2 * j + pj, ch]!r}, '
+                                                        f'raw {x0[2 * i + pi, 2 * j + pj]!r}; {int(bad.sum())} native samples changed, first wrong row {2 * i + pi}')
+        if dt == 'float64':
+            ref, mag = ref_malvar_interior(x0, cfa)
+            bad = np.abs(rgb[2:-2, 2:-2] - ref) > 32 * EPS * mag
+            R.checks += 1
+            if bad.any():
+                i, j, k = _first_bad(bad)
+                R.violation(f'malvar:interior-kernel:{cell}', f'{(m, n)} mosaic: channel {"rgb"[k]} at {(i + 2, j + 2)} = {rgb[i + 2, j + 2, k]!r}, published kernel gives {ref[i, j, k]!r}; '
+                                                             f'{int(bad.sum())} interior values wrong, first wrong row {i + 2}')
+            back = R.call(bayer.composite_bayer, rgb[..., 0], rgb[..., 1], rgb[..., 1], rgb[..., 2], cfa, hygiene=not big)
+            R.expect_equal(back, x0, f'composite(malvar):{cell}', f'compositing the demosaiced planes of a {(m, n)} mosaic does not return the raw mosaic')
+        if not big or case.get('flat'):
+            flat = R.call(bayer.demosaic_malvar, np.full((m, n), 7.0), cfa, hygiene=False)
+            R.expect_close(flat, np.full((m, n, 3), 7.0), 7 * 64 * EPS, f'malvar:flat-field:{cell}', f'a flat {(m, n)} mosaic does not demosaic to the same flat level')
+    planes = R.call(bayer.decomposite_bayer, x, cfa, hygiene=not big)
+    if planes is not FAILED and R.expect(len(planes) == 4, f'decomposite:{cell}', 'four planes'):
+        own = {colour(pi, pj, cfa): x0[pi::2, pj::2] for pi, pj in sites}
+        for nm, p in zip(PLANES, planes):
+            R.expect_equal(p, own[nm], f'decomposite:{cell}', f'plane {nm} of a {(m, n)} {dt} mosaic')
+        back = R.call(bayer.recomposite_bayer, *[own[nm].copy() for nm in PLANES], cfa, hygiene=not big)
+        R.expect_equal(back, x0, f'recomposite:{cell}', f'recomposite_bayer of the four planes of a {(m, n)} {dt} mosaic')
+        di = R.call(bayer.demosaic_deinterlace, x, cfa, hygiene=not big)
+        if dt == 'float64':
+            R.expect_close(di, np.stack([own['r'], (own['g1'] + own['g2']) / 2, own['b']], axis=2), 4 * EPS * float(x0.max()), f'deinterlace:{cell}', f'{(m, n)} mosaic')
+    if dt == 'float64':
+        gains = {'r': 0.5, 'g1': 1.0, 'g2': 2.0, 'b': 1.5}
+        for safe in (False, True):
+            rho = max(1.0, float(x0.max()) / 800.0) if safe else 1.0
+            want = x0.copy()
+            for pi, pj in sites:
+                want[pi::2, pj::2] = x0[pi::2, pj::2] * (gains[colour(pi, pj, cfa)] / rho)
+            data = x0.copy()
+            kw = dict(cfa=cfa, safe=True, saturation=800.0) if safe else dict(cfa=cfa)
+            if R.call(bayer.wb_prescale, data, gains['r'], gains['g1'], gains['g2'], gains['b'], hygiene=not big, **kw) is not FAILED:
+                R.expect_close(data, want, 8 * EPS * np.abs(want), f'wb_prescale:{"safe" if safe else "site-gain"}:{cell}', f'{(m, n)} mosaic scaled in place')
+    R.nontrivial(True)
+    R.outcome('bayer')
+
+
+def ref_bindown_sum(x, factor):
+    acc = 0.0
+    for off in itertools.product(*[range(f) for f in factor]):
+        acc = acc + x[tuple(slice(o, None, f) for o, f in zip(off, factor))]
+    return acc
+
+
+def ref_tile_rep(y, factor):
+    out = y
+    for ax, f in enumerate(factor):
+        out = np.repeat(out, f, axis=ax)
+    return out
+
+
+def run_large_bin(case, seed, R):
+    small, factor = tuple(case['small']), tuple(case['factor'])
+    shape = tuple(a * f for a, f in zip(small, factor))
+    pf = float(np.prod(factor))
+    nd = len(shape)
+    big = int(np.prod(shape)) > 2 ** 18
+    x = dense(shape, seed, 42, complex_=False)
+    y = dense(small, seed, 43, complex_=False)
+    want = ref_bindown_sum(x, factor)
+    tol = 8 * EPS * ref_bindown_sum(np.abs(x), factor) * max(1.0, np.log2(pf))
+    cell = f'{nd}d:large'
+    bs = R.call(detector.bindown, x, factor, 'sum', hygiene=not big, sig=f'bindown:sum:{cell}:exception')
+    if R.expect_close(bs, want, tol, f'bindown:sum:{cell}', f'bindown({shape}, {factor}, sum) vs the sum of the {int(pf)} strided sub-arrays, every bin'):
+        R.expect_close(float(np.asarray(bs).sum()), float(x.sum()), 64 * EPS * float(np.abs(x).sum()), f'bindown:sum:{cell}:conserve', f'total of a {shape} array')
+    ba = R.call(detector.bindown, x, factor, 'avg', hygiene=not big, sig=f'bindown:avg:{cell}:exception')
+    R.expect_close(ba, want / pf, tol / pf, f'bindown:avg:{cell}', f'bindown({shape}, {factor}, avg), every bin')
+    rep = ref_tile_rep(y, factor)
+    ta = R.call(detector.tile, y, factor, 'avg', hygiene=not big, sig=f'tile:avg:{cell}:exception')
+    R.expect_equal(ta, rep, f'tile:avg:{cell}', f'tile({small}, {factor}, avg) must replicate every value')
+    ts = R.call(detector.tile, y, factor, 'sum', hygiene=not big, sig=f'tile:sum:{cell}:exception')
+    if R.expect_close(ts, rep / pf, 4 * EPS * np.abs(rep / pf), f'tile:sum:{cell}', f'tile({small}, {factor}, sum) vs value/prod(factor), every element'):
+        R.expect_close(float(np.asarray(ts).sum()), float(y.sum()), 64 * EPS * float(np.abs(y).sum()), f'tile:sum:{cell}:conserve', f'total of the tiled {small} array')
+        if ba is not FAILED and np.asarray(ba).shape == small:
+            R.expect_close(float((x * np.asarray(ts)).sum()), float((np.asarray(ba) * y).sum()), 64 * EPS * float((np.abs(x) * np.abs(rep / pf)).sum()),
+                           f'adjoint:bindown(avg)-tile(sum):{cell}', f'<x, tile(y)> != <bindown(x), y> for shape {shape} factor {factor}')
+    R.nontrivial(pf > 1)
+    R.outcome('bin')
+
+
+def run_large_expose(case, seed, R):
+    shape, bits, gain, frames, maps = tuple(case['shape']), case['bits'], case['gain'], case['frames'], case['maps']
+    bias, fwc = 10, 1e12
+    n = shape[0] * shape[1]
+    big = n * frames > 2 ** 18
+    dcnu = nu_map(maps, shape)
+    prnu = nu_map(maps, shape)
+    dc = 0.0 if dcnu is None else 2.0
+    P = dict(bits=bits, gain=gain, bias=bias, fwc=fwc, dcnu=dcnu, prnu=prnu, dc=dc)
+    cap = 2 ** bits - 1
+    want_shape = shape if frames == 1 else (frames, *shape)
+    want_dtype = np.uint8 if bits <= 8 else np.uint16 if bits <= 16 else np.uint32
+    det = detector.Detector(dark_current=dc, read_noise=3.0, bias=bias, fwc=fwc, conversion_gain=gain, bits=bits, exposure_time=T_EXP,
+                            prnu=None if prnu is None else prnu.copy(), dcnu=None if dcnu is None else dcnu.copy())
+    k = np.arange(n, dtype=float)
+    ramp = ((k * 7919) % n + 1).reshape(shape) * (1.2 * cap * gain / n)       # every pixel different (7919 prime, coprime to every n used), a sixth saturated
+    sig = 'expose:large'
+    with noise_free():
+        out = R.call(det.expose, ramp / T_EXP, frames, hygiene=not big, sig=sig + ':exception')
+    if out is not FAILED:
+        try:
+            out = np.asarray(out)
+            ok = out.shape == want_shape and out.dtype == want_dtype
+        except Exception:   # noqa
+            ok = False
+        if R.expect(ok, sig + ':shape-dtype', f'{getattr(out, "shape", None)} {getattr(out, "dtype", None)} != documented {want_shape} {np.dtype(want_dtype)}'):
+            dn = out.astype(np.int64).reshape((frames, *shape))
+            lo, hi, regime = ref_expose(ramp / T_EXP, P)
+            bad = (dn < lo) | (dn > hi)
+            R.checks += 1
+            if bad.any():
+                i = _first_bad(bad)
+                R.violation(sig + f':value:{regime[i[1:]]}', f'{shape} frame x {frames}: DN {dn[i]} at frame/pixel {i}, reference {lo[i[1:]]}..{hi[i[1:]]} (bits={bits} gain={gain} maps={maps}; {int(bad.sum())} pixels wrong)')
+    R.nontrivial(True)
+    R.outcome('expose')
+
+
+def run_large(case, seed, R):
+    return {'bayer': run_large_bayer, 'bin': run_large_bin, 'expose': run_large_expose}[case['what']](case, seed, R)
+
+
+# ---------------------------------------------------------------------------------------------
 # white balance helpers
 
 GAINS = (0.5, 1.0, 2.0)
@@ -798,7 +1212,45 @@ def plan(tier, seed):
                             for over in (False, True):
                                 wb_cases.append({'helper': helper, 'cfa': cfa, 'shape': shape, 'safe': True, 'hot': f'cross:{names[am]}>{names[rm]}', 'gains': list(gi),
                                                  'sat': 'cross', 'amax': am, 'rmax': rm, 'over': over})
+    # ONE Detector object: exposures and re-configurations
+    hd_inits = [{'start': {}, 'frames': 1},
+                {'start': {'conversion_gain': 1, 'bits': 1, 'bias': 1, 'dark_current': 1, 'prnu': 1, 'dcnu': 1}, 'frames': 3}]
+    hd_depth = 3 if tier == 'quick' else 4
+    # plane argument forms
+    forms_shapes = [(2, 2), (2, 4), (4, 6)] if tier == 'quick' else [(2, 2), (2, 4), (4, 2), (4, 6), (6, 4), (8, 8)]
+    bayer_forms_cases = [{'h': h, 'w': w, 'form': f, 'dtype': dt, 'cfa': cfa} for (h, w) in forms_shapes for dt in ('float64', 'uint16') for f in PLANE_FORMS for cfa in ('rggb', 'bggr')]
+    # frame-size thresholds
+    T1 = [2 ** k + 1 for k in range(7, 17)] + [2 ** k + 2 ** (k - 1) + 3 for k in range(7, 17)]
+    mos_shapes = [(130, 4), (4, 130), (150, 150), (182, 184), (258, 6), (6, 258), (300, 300), (258, 1030), (1030, 258), (2050, 34), (34, 2050), (514, 130)]
+    # > 2^20 samples; 2^20 // ncols: 953 (odd), 1022 (even);   thorough: 349 (odd), 2995 (odd), 1024, 953, 2912 (even)
+    mos_huge = [(954, 1100), (1026, 1026)] + ([] if tier == 'quick' else [(360, 3000), (2998, 350), (1030, 1024), (1400, 1100), (3000, 360), (2050, 1026)])
+    large_cases = [{'what': 'bayer', 'shape': list(sh), 'cfa': cfa, 'dtype': 'float64'} for sh in mos_shapes for cfa in ('rggb', 'bggr')]
+    large_cases += [{'what': 'bayer', 'shape': list(sh), 'cfa': cfa, 'dtype': 'uint16'} for sh in ((130, 4), (150, 150), (258, 1030)) for cfa in ('rggb', 'bggr')]
+    large_cases += [{'what': 'bayer', 'shape': list(sh), 'cfa': cfa, 'dtype': 'float64', 'flat': tier != 'quick'} for sh in mos_huge for cfa in ('rggb', 'bggr')]
+    large_cases += [{'what': 'bin', 'small': [t], 'factor': [f]} for t in T1 for f in (2, 3)]
+    large_cases += [{'what': 'bin', 'small': list(sm), 'factor': list(f)} for sm, f in (
+        ((129, 3), (2, 2)), ((129, 3), (1, 5)), ((75, 50), (2, 3)), ((30, 30), (5, 5)), ((181, 182), (2, 3)), ((150, 150), (2, 2)), ((100, 75), (3, 4)),
+        ((257, 1030), (2, 1)), ((257, 1030), (2, 3)), ((513, 1027), (2, 2)), ((17, 33, 5), (2, 2, 2)), ((129, 3, 3), (1, 2, 3)))]
+    exp_shapes = [(129, 3), (150, 150), (181, 182), (300, 300), (257, 1030), (1025, 1025)]
+    large_cases += [{'what': 'expose', 'shape': list(sh), 'bits': b, 'gain': g, 'frames': fr, 'maps': mp}
+                    for sh in exp_shapes for (b, g, mp) in ((12, 3.7, None), (16, 1.0, 'ramp')) for fr in ((1, 3) if sh[0] * sh[1] <= 2 ** 17 else (1,))]
     return [
+        HistoryUnit('detector_object_history', hd_inits, hd_fresh, hd_events, hd_apply, hd_check, hd_canon, hd_depth,
+                    f'ONE Detector object (two initial configurations, frames 1 / 3, image (4,6)): every history up to depth {hd_depth} over the events expose (fixed log-spaced ramp 0..3e6 e-/s and the ceiling alphabet of the current settings, '
+                    'noise-free seam, through the call-hygiene layer), reassignment of EVERY public attribute expose reads -- ' + ', '.join(f'{a} {v}' for a, v in HIST_ATTRS.items()) +
+                    ' (lut = monotone 16-bit table) -- and in-place scaling of the prnu / dcnu map the detector holds; states are never merged; in EVERY state a probe exposure of the live object must have the documented shape / dtype / range, '
+                    'lie in the reference band of the noise-free law for the CURRENT attribute values, and equal bit for bit the exposure of a fresh Detector constructed with the current values'),
+        ScopeUnit('bayer_plane_forms', bayer_forms_cases, run_bayer_forms,
+                  f'plane shapes {forms_shapes} x dtype {{float64, uint16}} x CFA x where the four planes live {PLANE_FORMS} (independent arrays; the live views decomposite_bayer returns for either layout; '
+                  'harness-cut site slices of an owning mosaic / of a window of a larger frame, handed over in another site order; rows of a (4,h,w) stack; channels of an (h,w,4) image; one array object four times) '
+                  'x ALL 24 orders in which the four arrays are handed to (r, g1, g2, b): recomposite_bayer (fresh result and output= buffer) and composite_bayer must put every sample of every plane at the native site of that colour in the REQUESTED layout, '
+                  'decomposite_bayer of the result returns the planes, the planes are untouched'),
+        ScopeUnit('frame_size_thresholds', large_cases, run_large,
+                  f'size threshold alphabet, NOT closed over the data dimension (one seeded dense frame per size, judged on EVERY element): mosaics {mos_shapes} and > 2^20 samples {mos_huge} (2^20 // columns odd and even) x CFA '
+                  '(float64; uint16 counts on three sizes): demosaic_malvar native sites exact, every value two or more samples from the border equals the published kernels, composite of the result returns the raw frame, flat field stays flat '
+                  f'({"frames up to 2^18 samples" if tier == "quick" else "every size"}), decomposite / recomposite / demosaic_deinterlace / wb_prescale (plain, safe) against own strided slices; '
+                  f'bindown (sum, avg) / tile (avg, sum) with 1-D outputs of 2^k+1 and 2^k+2^(k-1)+3 bins, k = 7..16, factors 2 and 3, and 2-D / 3-D outputs (129,3) (75,50) (181,182) (150,150) (257,1030) (513,1027) (17,33,5) ... against sums of strided sub-arrays / np.repeat, totals, adjointness; '
+                  f'noise-free expose of frames {exp_shapes} (every pixel different, a sixth saturated) x (12 bit gain 3.7 | 16 bit gain 1 with ramp prnu/dcnu maps) x frames {{1, 3 up to 2^17 pixels}} against the reference model', chunk=1),
         ScopeUnit('expose', expose_cases, run_expose,
                   'bits EVERY value 1..32 x gain {0.5,1,2,3.7} x bias {0,10,-5} x fwc {1e3,1e12} x frames {1,3} x dcnu,prnu {None, ones, ramp 0.5..1.5} (2-D maps of the image shape) '
                   'x image shape {(2,4),(3,3)}, plus the unit-axis shapes {(1,1),(1,2),(2,1),(1,5),(5,1)} on bits {1,8,12,16,32} x gain {1,3.7} x maps {None, ramp}; per configuration one uniform exposure for every signal in {0,0.4,1,c-1,c,c+1,10c (c = (2^bits-1)*gain and fwc, also shifted by the bias), 2^bits*gain, 1e13} '
